@@ -817,7 +817,8 @@ fn run_hist(cx: &mut Cx, rep: &mut Report, h: &Hist, origin: &str) {
                         rep.count("oracle:token_is_added_word");
                         if flagged {
                             // why? (features of the input only)
-                            let target_of_add = add_log.iter().find(|(i, _, _)| i == ai).map(|(_, k, _)| k.clone()).unwrap_or_default();
+                            // (a seed or a concurrent batch logs several adds under one op index: the one of this very word is meant)
+                            let target_of_add = add_log.iter().find(|(i, k, w)| i == ai && w == t && (k == "user" || *k == my_key)).map(|(_, k, _)| k.clone()).unwrap_or_default();
                             let later_variant = add_log.iter().any(|(i, k, w)| i > ai && *k == target_of_add && w != t && real_id(w) == real_id(t));
                             // ... or an add for ANOTHER file whose dictionary is the same file on disk (F20)
                             let phys = |k: &String| -> Option<PathBuf> {
@@ -1573,6 +1574,60 @@ fn probe_stale(cx: &mut Cx, rep: &mut Report, rounds: u64, origin: &str) {
     }
 }
 
+/// FC07g probe (outside the correspondence: the model runs commands one after the other).  Several add commands
+/// for the SAME dictionary that arrive together are handled concurrently by tower-lsp; each loads the dictionary,
+/// appends its word and writes the whole file back (through the same <name>.tmp): the last rename wins and the
+/// other words are lost without any crash.
+fn probe_par_same(cx: &mut Cx, rep: &mut Report, rounds: u64, origin: &str) {
+    let user_words = ["quxly", "vlimp", "zorgle"];
+    let file_words = ["blorfy", "krunkle"];
+    let mut lost_rounds = 0u64;
+    let mut example = String::new();
+    for _ in 0..rounds {
+        rep.eval();
+        let dir = cx.fresh_dir();
+        let d = dir.to_str().unwrap().to_string();
+        let user = format!("{d}/cfg/user.txt");
+        let fd = format!("{d}/fd");
+        let st = settings(&user, &fd, &format!("{d}/stats.txt"), json!({}));
+        let _g = cx.rt.enter();
+        let mut s = Session::new(st);
+        let doc = format!("{d}/n.txt");
+        let _ = std::fs::write(&doc, "Here quxly vlimp zorgle blorfy krunkle are.");
+        let url = Url::from_file_path(&doc).unwrap();
+        let uri = url.to_string();
+        let futs: Vec<HandlerFut> = user_words.iter().map(|w| s.start("workspace/executeCommand", json!({"command": "HarperAddToUserDict", "arguments": [w, uri]}), true)).collect();
+        let ok1 = s.drive_all(futs);
+        let futs: Vec<HandlerFut> = file_words.iter().map(|w| s.start("workspace/executeCommand", json!({"command": "HarperAddToFileDict", "arguments": [w, uri]}), true)).collect();
+        let ok2 = s.drive_all(futs);
+        s.request("shutdown", Value::Null);
+        drop(s);
+        if !ok1 || !ok2 {
+            rep.fail("stuck", "concurrent add commands did not complete".into(), json!({"kind": "par-same", "rounds": 1, "origin": origin}));
+        }
+        let got_user: Vec<String> = cx.rt.block_on(load_dict(&user)).map(|d| words_of(&d)).unwrap_or_default();
+        let fpath = file_dict_name(&url).map(|n| Path::new(&fd).join(n)).ok();
+        let got_file: Vec<String> = fpath.and_then(|p| cx.rt.block_on(load_dict(&p)).ok()).map(|d| words_of(&d)).unwrap_or_default();
+        let missing: Vec<&str> = user_words.iter().filter(|w| !got_user.iter().any(|g| g == *w)).chain(file_words.iter().filter(|w| !got_file.iter().any(|g| g == *w))).cloned().collect();
+        if !missing.is_empty() {
+            lost_rounds += 1;
+            if example.is_empty() {
+                example = format!("user dictionary = {:?}, file dictionary = {:?}, missing {:?}", got_user, got_file, missing);
+            }
+        }
+        let _ = std::fs::remove_dir_all(&dir);
+    }
+    rep.count_n("par_same_probe:rounds", rounds);
+    rep.count_n("par_same_probe:rounds_with_lost_words", lost_rounds);
+    if lost_rounds > 0 {
+        rep.fail(
+            "concurrent-adds-lose-words",
+            format!("three HarperAddToUserDict and two HarperAddToFileDict commands sent together (handled concurrently): in {lost_rounds} of {rounds} rounds words that were added are not in the dictionary file afterwards, e.g. {example}"),
+            json!({"kind": "par-same", "rounds": rounds, "origin": origin}),
+        );
+    }
+}
+
 fn run_input(cx: &mut Cx, rep: &mut Report, v: &Value, origin: &str) {
     match v["kind"].as_str().unwrap_or("") {
         "load" => run_load(cx, rep, v["content"].as_str().unwrap_or(""), origin),
@@ -1590,6 +1645,7 @@ fn run_input(cx: &mut Cx, rep: &mut Report, v: &Value, origin: &str) {
             }
         }
         "stale-linter" => probe_stale(cx, rep, v["rounds"].as_u64().unwrap_or(40), origin),
+        "par-same" => probe_par_same(cx, rep, v["rounds"].as_u64().unwrap_or(5), origin),
         "merge" => {
             let get = |k: &str| -> Vec<String> { v[k].as_array().map(|a| a.iter().filter_map(|x| x.as_str().map(|s| s.to_string())).collect()).unwrap_or_default() };
             run_merge(cx, rep, &get("a"), &get("b"), origin)
